@@ -185,6 +185,17 @@ Definition c09_iter (st : dstate) (it : iter) (post : dstate) (obs : list out) (
                   if forallb (fun r => justified names (r_name r)) (live_records m) then [] else [VFail 3]
                 else [])
       (sends_of obs) in
+  (* a probe query proposes SRV / TXT records only under names of registered services: after an
+     unregister the probe for the instance name stops (fix d685fcf) *)
+  let v_probe :=
+    flat_map
+      (fun s => let '(i, _, _, m) := s in
+                if negb (o_resp m) then
+                  let names := flat_map (svc_names [get_reg st i; get_reg post i]) svcs in
+                  if forallb (fun r => negb ((r_type r =? TY_SRV) || (r_type r =? TY_TXT)) || justified names (r_name r)) (o_ns m)
+                  then [] else [VFail 5]
+                else [])
+      (sends_of obs) in
   (* the repeat of a goodbye is due 120 ms later: the daemon asks to be woken by then *)
   let pending := flat_map (fun e => match snd e with UnregisterResend _ _ _ => [fst e] | _ => [] end) (d_retrans post) in
   let v_wake :=
@@ -194,7 +205,7 @@ Definition c09_iter (st : dstate) (it : iter) (post : dstate) (obs : list out) (
          | d0 :: t => let d := fold_left N.min t d0 in
                       match wake with Some w => if w <=? d then [] else [VFail 4] | None => [VFail 4] end
          end in
-  v_reply ++ v_gb ++ v_quiet ++ v_wake.
+  v_reply ++ v_gb ++ v_quiet ++ v_probe ++ v_wake.
 
 (* ======================================================================================================
    C08  after a rename, every packet uses the new names; the daemon thread survives
@@ -383,6 +394,14 @@ Definition c07_iter (g : g7) (st : dstate) (it : iter) (post : dstate) (obs : li
                              then [(fst ir, lname (fst np))] else []
                 | None => [(fst ir, lname (fst np))]
                 end) (rg_probing (snd ir))) (d_regs mid)) [st1; st2; post] in
+  (* services that leave the service map in this iteration (unregister): their instance names start
+     over - a later registration of the name has to be probed three times anew (fix d685fcf) *)
+  let left_names : list bytes :=
+    flat_map (fun ks => match aget (fst ks) (d_svcs post) with
+                        | Some _ => []
+                        | None => s_full (snd ks) :: map (fun ir => resolve_name (snd ir) (s_full (snd ks))) (d_regs st)
+                        end) (d_svcs st) in
+  let left (k : pkey) : bool := existsb (fun n => labels_beq (snd k) (lname n)) left_names in
   let keepk (k : pkey) : bool := negb (gone (fst k)) && negb (existsb (pkey_eqb k) restarted) in
   let last0 := filter (fun kv => keepk (fst kv)) (g_last g) in
   let cnt0 := filter (fun kv => keepk (fst kv)) (g_cnt g) in
@@ -491,10 +510,12 @@ Definition c07_iter (g : g7) (st : dstate) (it : iter) (post : dstate) (obs : li
     else flat_map (fun kv : pkey * (N * N * bool) =>
                      let '(t0, c, a) := snd kv in
                      if (t0 + 1000 <=? now) && (c <? 2) then [VFail 35] else []) g_ann' in
-  (mkG7 (fold_left (fun acc k => kset pkey_eqb k now acc) pn last0)
-        (fold_left (fun acc k => incr pkey_eqb k acc) pn cnt0)
-        (fold_left (fun acc k => incr rkey_eqb k acc) (probed_records obs) rcnt0)
-        est late (if d_dead post then None else due) g_ann' unreg toggled,
+  (* what is carried forward: nothing under the instance names of services that left in this iteration
+     (the responses of this iteration itself were judged above with what was established before) *)
+  (mkG7 (filter (fun kv => negb (left (fst kv))) (fold_left (fun acc k => kset pkey_eqb k now acc) pn last0))
+        (filter (fun kv => negb (left (fst kv))) (fold_left (fun acc k => incr pkey_eqb k acc) pn cnt0))
+        (filter (fun kv => negb (left (fst (fst kv), lname (r_name (snd (fst kv)))))) (fold_left (fun acc k => incr rkey_eqb k acc) (probed_records obs) rcnt0))
+        (filter (fun k => negb (left k)) est) late (if d_dead post then None else due) g_ann' unreg toggled,
    v_space ++ v_form ++ v_resp ++ v_wake ++ v_second).
 
 (* ---- running a checker next to the model over a whole history ------------------------------------- *)
